@@ -181,6 +181,35 @@ class Summary:
         self.may_panic = may_panic
 
 
+def _byte_string(vs):
+    """bytes of rustc's rendering of a byte-string constant (`b"\\x00ab"`), or None"""
+    if not isinstance(vs, str) or not (vs.startswith('b"') and vs.endswith('"')):
+        return None
+    body, out, i = vs[2:-1], [], 0
+    esc = {"n": 10, "r": 13, "t": 9, "\\": 92, "0": 0, '"': 34, "'": 39}
+    while i < len(body):
+        c = body[i]
+        if c != "\\":
+            if ord(c) > 127:
+                return None
+            out.append(ord(c)); i += 1
+            continue
+        if i + 1 >= len(body):
+            return None
+        e = body[i + 1]
+        if e == "x" and i + 3 < len(body) + 0:
+            try:
+                out.append(int(body[i + 2:i + 4], 16))
+            except ValueError:
+                return None
+            i += 4
+        elif e in esc:
+            out.append(esc[e]); i += 2
+        else:
+            return None
+    return out
+
+
 class TB:
     def __init__(self, facts, fn, depth=0, stack=()):
         self.F = facts
@@ -425,6 +454,12 @@ class TB:
         if "variant" in k:
             return ("cs", k.get("val_s") or k.get("s"), k["variant"],
                     tuple(_cfield(f) for f in k.get("fields", [])))
+        # a named constant of type &[u8] (`const NUL_BYTE: &[u8] = &[0];`): the driver's constant table has its evaluated bytes; it
+        # reads as the unsized reference to that array, the form a literal `&[0]` in place has
+        if k.get("uneval") and str(k.get("ty", "")).replace("'static ", "") == "&[u8]":
+            bs = _byte_string((self.F.consts.get(k["uneval"]) or {}).get("val_s"))
+            if bs is not None:
+                return ("unsize", ("ref", ("aggr", ("array",), tuple(("c", b_) for b_ in bs))), "&[u8]", "&[u8; %d]" % len(bs))
         return ("cs", k.get("val_s") or k.get("s"))
 
     def _const_array(self, d):
@@ -582,7 +617,8 @@ class TB:
         for (d, s_, lab) in g.dominating_edges(bx):
             if b.term(d)["k"] != "switch":
                 continue
-            succ = b.succ[d]
+            # (the `otherwise -> unreachable` target of a switch over an enum's discriminant is no way out)
+            succ = [(t_, l_) for (t_, l_) in b.succ[d] if b.term(t_)["k"] != "unreachable"]
             if len(succ) != 2 or not any(t_ == by for (t_, _) in succ) or not any(t_ == s_ for (t_, _) in succ) or s_ == by:
                 break
             c_ = g.edge_condition(d, s_, lab)
